@@ -48,6 +48,11 @@ func runC10(c *Ctx) {
 	// makes the read loop spin on stale bytes for ever. Line breaks held back for a hyphenated word are paid exactly once
 	// (R03.11): re-added on every later line they make Normalize write, and Match count, a quadratic number of lines
 	borrowRules(c, []string{"R08.7", "R08.1", "R08.3"}, runC08)
+	// shared with C04: go-diff's line mode treats token rune 10 as a line break and indexes a table of at most 65535
+	// "lines": with it switched on a large document makes the library panic (R04.11)
+	if c.R.Filter == nil {
+		borrowRules(c, []string{"R04.11"}, runC04)
+	}
 	c.R.Assume("non-constant index arithmetic (filter[off], hits[idx], diffs[start:end], Tokens[startIndex+startOffset]) is outside what this rule decides")
 	fns := v2LibFuncs(p)
 	c.R.Count("R10.1:functions", len(fns))
@@ -73,6 +78,7 @@ func runC10(c *Ctx) {
 	// R10.5 integer divisions
 	checkIntDivisions(c, p, fns)
 	checkPairwiseLoops(c, p, fns)
+	checkBufferCopiedInLoop(c, p, fns)
 	// R10.6 no quadratic string accumulation
 	checkStringAccumulation(c, p, fns)
 	// R10.7 lazily built parts of a document exist wherever they are used
@@ -788,4 +794,84 @@ func checkPairwiseLoops(c *Ctx, p *core.Prog, fns []*ssa.Function) {
 	c.R.Count("R10.9:loops over a list nested in a loop over the same list", n)
 	// (no floor: the ideal number of such loops is zero; on the current tree the rule's positive example is known finding D49)
 	c.R.OK("R10.9", "v2: loops over a list nested in a loop over the same list were looked for", v2pkg, fmt.Sprintf("%d found", n))
+}
+
+// checkBufferCopiedInLoop: R10.10. (*bytes.Buffer).String copies the whole buffer. A loop that writes to a buffer and also
+// takes its String on every round (to look at its end, say) copies everything written so far each time: the work is quadratic
+// in the size of the input, and Normalize of a megabyte does not come back. Buffers that belong to one round of the loop
+// (declared or reset inside it) are exempt.
+func checkBufferCopiedInLoop(c *Ctx, p *core.Prog, fns []*ssa.Function) {
+	root := func(v ssa.Value) ssa.Value {
+		for d := 0; d < 4; d++ {
+			switch x := v.(type) {
+			case *ssa.FieldAddr:
+				v = x.X
+			case *ssa.UnOp:
+				v = x.X
+			default:
+				return v
+			}
+		}
+		return v
+	}
+	nB, bad := 0, ""
+	for _, fn := range fns {
+		type use struct {
+			in   ssa.Instruction
+			name string
+		}
+		byBuf := map[ssa.Value][]use{}
+		for _, call := range core.CallsIn(fn) {
+			n := core.StaticCalleeName(call.Common())
+			if !strings.HasPrefix(n, "(*bytes.Buffer).") || len(call.Common().Args) == 0 {
+				continue
+			}
+			r := root(call.Common().Args[0])
+			byBuf[r] = append(byBuf[r], use{call.(ssa.Instruction), strings.TrimPrefix(n, "(*bytes.Buffer).")})
+		}
+		for buf, uses := range byBuf {
+			nB++
+			for _, u := range uses {
+				if u.name != "String" {
+					continue
+				}
+				// innermost..outermost loops containing the String call
+				for h := u.in.Block(); h != nil; h = h.Idom() {
+					isHeader := false
+					for _, pr := range h.Preds {
+						if h.Dominates(pr) {
+							isHeader = true
+						}
+					}
+					if !isHeader {
+						continue
+					}
+					loop := naturalLoop(h)
+					if !loop[u.in.Block()] {
+						continue
+					}
+					if al, ok := buf.(*ssa.Alloc); ok && loop[al.Block()] {
+						continue // one buffer per round
+					}
+					writes, resets := false, false
+					for _, w := range uses {
+						if !loop[w.in.Block()] {
+							continue
+						}
+						switch {
+						case strings.HasPrefix(w.name, "Write"), w.name == "ReadFrom":
+							writes = true
+						case w.name == "Reset", w.name == "Truncate":
+							resets = true
+						}
+					}
+					if writes && !resets && bad == "" {
+						bad = core.ShortFn(fn) + ": " + p.Pos(u.in.Pos())
+					}
+				}
+			}
+		}
+	}
+	c.R.Check(bad == "", "R10.10", "no buffer is copied out on every round of the loop that fills it", v2pkg, fmt.Sprintf("%d byte buffers in the library's functions", nB),
+		"(*bytes.Buffer).String is called inside the loop that writes the buffer ("+bad+"): every round copies all that was written so far, so the time grows with the square of the input - a few megabytes do not come back")
 }
